@@ -51,10 +51,12 @@ def build(img, prof, P=None, size_bytes=None):
                       note={k: v for k, v in prof.items() if k != "when"}, cb=info["cb"], stride=info["stride"])
 
 
-def make_trace(tid, rng, nops=30):
+def make_trace(tid, rng, nops=30, **opt):
     kind = "fixed" if rng.random() < 0.2 else "dynamic"
     bs = rng.choice([2 << 20, 2 << 20, 512 << 10, 4096, 4 << 20, 65536])
     n = rng.randrange(2, 24 if bs <= (2 << 20) else 8)
+    if opt.get("many"):  # more blocks than the 4096-entry BAT cache holds
+        kind, bs, n = "dynamic", 4096, rng.randrange(4200, 4600)
     npos = n + rng.randrange(0, 3)
     pos = list(range(npos))
     rng.shuffle(pos)
@@ -66,7 +68,7 @@ def make_trace(tid, rng, nops=30):
     b = build(img, prof, P=npos, size_bytes=size_b)
     s = b.open()
     fresh = b.open()
-    rec = record.Recorder(s, size_b, probe=fresh.readoffset)
+    rec = record.Recorder(s, size_b, probe=fresh.readoffset, align=opt.get("align"))
     record.random_ops(rec, rng, size_b, nops, unit=bs, big=min(3 * bs + 4096, 6 << 20),
                       sectors_fn=s.disk.read_sectors, ssize=512)
     return {"tid": tid, "fmt": "vhd", "img": {"kind": kind, "n": n, "cb": 1, "bat": bat, "size": n, "foot511": img["foot511"]},
